@@ -516,7 +516,12 @@ class HostConnection(object):
             conn = self._session.cluster.connection_factory(self.host.endpoint, on_orphaned_stream_released=self.on_orphaned_stream_released)
             if self._keyspace:
                 conn.set_keyspace_blocking(self._keyspace)
-            self._connection = conn
+            with self._lock:
+                if self.is_shutdown:
+                    # the pool was shut down while we were connecting
+                    conn.close()
+                    return
+                self._connection = conn
         except Exception:
             log.warning("Failed reconnecting %s. Retrying." % (self.host.endpoint,))
             if conn:
@@ -723,6 +728,11 @@ class HostConnectionPool(object):
                 conn.set_keyspace_blocking(self._session.keyspace)
             self._next_trash_allowed_at = time.time() + _MIN_TRASH_INTERVAL
             with self._lock:
+                if self.is_shutdown:
+                    # the pool was shut down while we were connecting
+                    self.open_count -= 1
+                    conn.close()
+                    return True
                 new_connections = self._connections[:] + [conn]
                 self._connections = new_connections
             log.debug("Added new connection (%s) to pool for host %s, signaling availability",
